@@ -231,3 +231,71 @@ Proof.
       { cbv beta. change (0 + i) with i. rewrite Hr, (Hpc _ _ _ Hf). reflexivity. }
       rewrite Hff. reflexivity.
 Qed.
+
+(* ---------- proof byte layout: what is parsed re-serialises to exactly the input ---------- *)
+Lemma skipn_skipn : forall {A} a b (l : list A), skipn a (skipn b l) = skipn (a + b) l.
+Proof.
+  intros A a b; induction b as [|b IH]; intros l.
+  - rewrite Nat.add_0_r. reflexivity.
+  - rewrite <- plus_n_Sm. destruct l as [|x l]; [rewrite !skipn_nil; reflexivity|]. cbn [skipn]. apply IH.
+Qed.
+
+Lemma chunks_concat : forall {A} k f (l : list A), k * f <= length l ->
+  concat (chunks k f l) ++ skipn (k * f) l = l.
+Proof.
+  intros A k f; induction f as [|f IH]; intros l Hl.
+  - rewrite Nat.mul_0_r. reflexivity.
+  - cbn [chunks concat]. rewrite <- app_assoc.
+    replace (k * S f) with (k * f + k) by lia. rewrite <- skipn_skipn.
+    rewrite IH by (rewrite skipn_length; lia). apply firstn_skipn.
+Qed.
+
+Lemma pg1_roundtrip : forall bs p, parse_pg1 bs = Some p -> pg1_bytes p = bs.
+Proof.
+  intros bs p H. unfold parse_pg1 in H.
+  destruct (length bs <? 52) eqn:L1; [discriminate|]. apply Nat.ltb_ge in L1.
+  destruct (N.ltb_spec (N.of_nat (length bs)) (52 + u32 (firstn 4 (skipn 48 bs)) * 32)) as [L2|L2]; [discriminate|].
+  apply (f_equal (fun o => match o with Some q => pg1_bytes q | None => [] end)) in H. cbv beta match in H.
+  rewrite <- H. clear H p. cbv beta match delta [pg1_bytes g_commit g_nb g_resp g_trail].
+  set (K := N.to_nat (u32 (firstn 4 (skipn 48 bs)))) in *.
+  assert (HK : 32 * K <= length (skipn 52 bs)) by (rewrite skipn_length; unfold K; lia).
+  replace (skipn (52 + 32 * K) bs) with (skipn (32 * K) (skipn 52 bs)) by (rewrite skipn_skipn; f_equal; lia).
+  rewrite (chunks_concat 32 K (skipn 52 bs) HK).
+  replace (skipn 52 bs) with (skipn 4 (skipn 48 bs)) by (rewrite skipn_skipn; reflexivity).
+  rewrite firstn_skipn. apply firstn_skipn.
+Qed.
+
+Lemma layout_roundtrip_lemma : forall v bs L, parse_sigproof v bs = POk L -> layout_bytes L = bs.
+Proof.
+  intros v bs L H. unfold parse_sigproof in H.
+  destruct (length bs <? 144); [discriminate|].
+  destruct (length bs <? 148); [destruct v; discriminate|].
+  destruct (N.ltb _ _); [destruct v; discriminate|].
+  set (l1 := N.to_nat (u32 (firstn 4 (skipn 144 bs)))) in *.
+  destruct (parse_pg1 (firstn l1 (skipn 148 bs))) as [p1|] eqn:P1; [|discriminate].
+  destruct (parse_pg1 (skipn (148 + l1) bs)) as [p2|] eqn:P2; [|discriminate].
+  apply (f_equal (fun o => match o with POk q => layout_bytes q | _ => [] end)) in H. cbv beta match in H.
+  rewrite <- H. clear H L. cbv beta match delta [layout_bytes l_aprime l_abar l_d l_len1b l_vc1 l_vc2].
+  rewrite (pg1_roundtrip _ _ P1), (pg1_roundtrip _ _ P2).
+  replace (skipn (148 + l1) bs) with (skipn l1 (skipn 148 bs)) by (rewrite skipn_skipn; f_equal; lia).
+  rewrite firstn_skipn.
+  replace (skipn 148 bs) with (skipn 4 (skipn 144 bs)) by (rewrite skipn_skipn; reflexivity).
+  rewrite firstn_skipn.
+  replace (skipn 144 bs) with (skipn 48 (skipn 96 bs)) by (rewrite skipn_skipn; reflexivity).
+  rewrite firstn_skipn.
+  replace (skipn 96 bs) with (skipn 48 (skipn 48 bs)) by (rewrite skipn_skipn; reflexivity).
+  rewrite firstn_skipn. apply firstn_skipn.
+Qed.
+
+(* the payload in front of it: count bytes, bit vector bytes and the rest are a partition of the input *)
+Lemma payload_partition_lemma : forall bs n bits rest, parse_payload bs = Some (n, bits, rest) ->
+  exists hi lo bv, bs = hi :: lo :: bv ++ rest /\ n = N.to_nat (hi * 256 + lo) /\ length bv = bv_len n /\
+                   bits = concat (map bits_of_byte (rev bv)).
+Proof.
+  intros bs n bits rest H. destruct bs as [|hi [|lo t]]; try discriminate. cbn [parse_payload] in H.
+  destruct (length t <? bv_len (N.to_nat (hi * 256 + lo))) eqn:L; [discriminate|]. apply Nat.ltb_ge in L.
+  injection H as <- <- <-. exists hi, lo, (firstn (bv_len (N.to_nat (hi * 256 + lo))) t).
+  repeat split; auto.
+  - rewrite firstn_skipn. reflexivity.
+  - rewrite firstn_length. lia.
+Qed.
